@@ -42,7 +42,8 @@ type wop struct {
 type sub struct {
 	idx         int
 	target      string // target name or "*"
-	paths       [][]string
+	paths       [][]string // index form below the target: origin (if any) followed by the pattern
+	porigin     []string   // origin of each path ("" = none)
 	updatesOnly bool
 	startAt     int64
 	req         *pb.SubscribeRequest
@@ -78,15 +79,31 @@ func subPathPool() [][]string {
 
 type trialCfg struct {
 	targets []string
-	origin  string
+	// origin per top-level family of the data ("a", "b", the sentinel family):
+	// "" = no origin. Families may carry different origins in one trial.
+	origin map[string]string
 }
 
+// originOf returns the origin of the family a data path (or delete query) belongs to.
+func (tc *trialCfg) originOf(p []string) string {
+	if len(p) == 0 {
+		return ""
+	}
+	return tc.origin[p[0]]
+}
+
+// fullKey is the index of a DATA path: target, the family's origin if any, the path.
 func (tc *trialCfg) fullKey(target string, p []string) []string {
 	k := []string{target}
-	if tc.origin != "" {
-		k = append(k, tc.origin)
+	if o := tc.originOf(p); o != "" {
+		k = append(k, o)
 	}
 	return append(k, p...)
+}
+
+// subKey is the index of a subscription path (already carrying its origin) under a target.
+func subKey(target string, p []string) []string {
+	return append([]string{target}, p...)
 }
 
 func runTrial(r *vlib.Run, mode string, trial int, rng *rand.Rand) {
@@ -98,8 +115,15 @@ func runTrial(r *vlib.Run, mode string, trial int, rng *rand.Rand) {
 	for i := 0; i < nT; i++ {
 		tc.targets = append(tc.targets, fmt.Sprintf("T%d", i))
 	}
-	if rng.Intn(2) == 0 {
-		tc.origin = "oc"
+	tc.origin = map[string]string{sentA: ""}
+	origins := []string{"", "oc", "o2"}
+	switch rng.Intn(3) {
+	case 0: // no origins at all
+		tc.origin["a"], tc.origin["b"] = "", ""
+	case 1: // one origin for all data
+		tc.origin["a"], tc.origin["b"] = "oc", "oc"
+	default: // families differ (one may have none)
+		tc.origin["a"], tc.origin["b"] = origins[rng.Intn(3)], origins[rng.Intn(3)]
 	}
 	c := cache.New(tc.targets)
 	srv, _ := subscribe.NewServer(c)
@@ -124,12 +148,30 @@ func runTrial(r *vlib.Run, mode string, trial int, rng *rand.Rand) {
 		seen := map[string]bool{}
 		for len(s.paths) < np {
 			p := pool[rng.Intn(len(pool))]
-			if !seen[model.Key(p)] {
-				seen[model.Key(p)] = true
-				s.paths = append(s.paths, p)
+			// The path's origin: the family's own origin when the pattern names a
+			// family (so that it selects data), any origin otherwise.
+			po := origins[rng.Intn(3)]
+			if len(p) > 0 && p[0] != "*" && rng.Intn(8) != 0 {
+				po = tc.origin[p[0]]
+			}
+			ip := append([]string{}, p...)
+			if po != "" {
+				ip = append([]string{po}, p...)
+			}
+			if !seen[model.Key(ip)] {
+				seen[model.Key(ip)] = true
+				s.paths = append(s.paths, ip)
+				s.porigin = append(s.porigin, po)
 			}
 		}
-		s.paths = append(s.paths, []string{sentA})
+		// The sentinel path (no origin) is listed last or, sometimes, first.
+		if rng.Intn(4) == 0 {
+			s.paths = append([][]string{{sentA}}, s.paths...)
+			s.porigin = append([]string{""}, s.porigin...)
+		} else {
+			s.paths = append(s.paths, []string{sentA})
+			s.porigin = append(s.porigin, "")
+		}
 		s.updatesOnly = rng.Intn(4) == 0
 		switch rng.Intn(5) {
 		case 0:
@@ -139,9 +181,29 @@ func runTrial(r *vlib.Run, mode string, trial int, rng *rand.Rand) {
 		default:
 			s.startAt = rng.Int63n(totalOps)
 		}
-		sl := &pb.SubscriptionList{Prefix: &pb.Path{Target: s.target, Origin: tc.origin}, Mode: pb.SubscriptionList_STREAM, UpdatesOnly: s.updatesOnly}
-		for _, p := range s.paths {
-			sl.Subscription = append(sl.Subscription, &pb.Subscription{Path: gen.Path(false, p...)})
+		sl := &pb.SubscriptionList{Prefix: &pb.Path{Target: s.target}, Mode: pb.SubscriptionList_STREAM, UpdatesOnly: s.updatesOnly}
+		// Origins travel in the prefix when every path has the same one (and the
+		// seed says so), else in the individual paths.
+		common, same := s.porigin[0], true
+		for _, po := range s.porigin {
+			if po != common {
+				same = false
+			}
+		}
+		inPrefix := same && common != "" && rng.Intn(2) == 0
+		if inPrefix {
+			sl.Prefix.Origin = common
+		}
+		for i, p := range s.paths {
+			pat := p
+			if s.porigin[i] != "" {
+				pat = p[1:]
+			}
+			sp := gen.Path(false, pat...)
+			if !inPrefix {
+				sp.Origin = s.porigin[i]
+			}
+			sl.Subscription = append(sl.Subscription, &pb.Subscription{Path: sp})
 		}
 		s.req = &pb.SubscribeRequest{Request: &pb.SubscribeRequest_Subscribe{Subscribe: sl}}
 		s.stream = vlib.NewStream(context.Background(), "u")
@@ -199,9 +261,9 @@ func runTrial(r *vlib.Run, mode string, trial int, rng *rand.Rand) {
 		var n *pb.Notification
 		switch kind {
 		case "upd":
-			n = gen.Update(o.Target, tc.origin, tsOf[ti], nil, gen.Path(false, p...), gen.I(val))
+			n = gen.Update(o.Target, tc.originOf(p), tsOf[ti], nil, gen.Path(false, p...), gen.I(val))
 		case "del":
-			n = gen.Delete(o.Target, tc.origin, tsOf[ti], nil, gen.Path(false, p...))
+			n = gen.Delete(o.Target, tc.originOf(p), tsOf[ti], nil, gen.Path(false, p...))
 		}
 		o.Call = tick()
 		if kind == "reset" {
@@ -338,7 +400,7 @@ func runTrial(r *vlib.Run, mode string, trial int, rng *rand.Rand) {
 	}
 	r.Eval(1)
 	witness := func(s *sub) map[string]interface{} {
-		return map[string]interface{}{"targets": tc.targets, "origin": tc.origin, "subscription": map[string]interface{}{"target": s.target, "paths": s.paths, "updates_only": s.updatesOnly, "start_at_op": s.startAt}, "gomaxprocs": procs, "hold_point": holdPoint, "ops_per_writer": nops}
+		return map[string]interface{}{"targets": tc.targets, "origins": tc.origin, "subscription": map[string]interface{}{"target": s.target, "paths": s.paths, "path_origins": s.porigin, "updates_only": s.updatesOnly, "start_at_op": s.startAt}, "gomaxprocs": procs, "hold_point": holdPoint, "ops_per_writer": nops}
 	}
 	if stuck != "" {
 		r.Violation(mode, trial, "no-convergence:stuck", stuck, witness(subs[0]))
@@ -376,7 +438,7 @@ func runTrial(r *vlib.Run, mode string, trial int, rng *rand.Rand) {
 				first = append(first, compact(m))
 			}
 		}
-		r.Sample(map[string]interface{}{"trial": trial, "targets": nT, "origin": tc.origin, "writers_ops": nops, "subscriptions": M, "sub0": witness(s)["subscription"], "sub0_responses": s.stream.NSent(), "sub0_first": first})
+		r.Sample(map[string]interface{}{"trial": trial, "targets": nT, "origins": tc.origin, "writers_ops": nops, "subscriptions": M, "sub0": witness(s)["subscription"], "sub0_responses": s.stream.NSent(), "sub0_first": first})
 	}
 }
 
@@ -398,7 +460,7 @@ func compact(m *pb.SubscribeResponse) string {
 
 func covers(s *sub, tc *trialCfg, key []string) bool {
 	for _, p := range s.paths {
-		if model.Compat(tc.fullKey(s.target, p), key) {
+		if model.Compat(subKey(s.target, p), key) {
 			return true
 		}
 	}
